@@ -53,6 +53,9 @@ type Core struct {
 
 	// A `stack` of labels to jump to if an exception is raised
 	ExceptionCatchLabels []CallFrame
+	// For each catch label: the machine state to restore when the exception is caught
+	// (the throw may happen several call frames deeper and with operands pending).
+	exceptionCatchStates []catchState
 
 	// Points to the start of the current stackframe
 	// Then, the absolute index can be computed by adding the value of mp and the relative offset of the memory location.
@@ -61,6 +64,13 @@ type Core struct {
 	CancelCtx *context.Context
 	// Describes some resource limits for the current core
 	Limits CoreLimits
+}
+
+// Machine state recorded when a `try` block is entered.
+type catchState struct {
+	callDepth     int
+	stackHeight   int
+	memoryPointer int64
 }
 
 type CoreLimits struct {
@@ -316,13 +326,13 @@ outer:
 						return
 					}
 
-					// If the exception occurred in another function, also pop the call frame of this function
-					// If this was not the case, a function would basically "return twice",
-					// as the jump to the error-handling code would not pop the most current call frame.
+					// Unwind to the activation that installed the handler: drop every call frame above it,
+					// the operands pushed since and the memory frames of the abandoned calls.
 					catchLocation := self.ExceptionCatchLabels[len(self.ExceptionCatchLabels)-1]
-					if self.callFrame().Function != catchLocation.Function {
-						self.popCallStack()
-					}
+					state := self.exceptionCatchStates[len(self.exceptionCatchStates)-1]
+					self.CallStack = self.CallStack[:state.callDepth]
+					self.Stack = self.Stack[:state.stackHeight]
+					self.MemoryPointer = state.memoryPointer
 					*self.callFrame() = catchLocation
 
 					self.push(
